@@ -131,10 +131,6 @@ def space(tier):
 def in_alphabet(kind, seq, r):
     """Renderings that no documentation / regex comment presents as supported are not part of the alphabet."""
     kw = KW[kind][r.get('kw', 0)]
-    if r.get('rep', 0) >= 1 and kw in ('Secs. ',):
-        # a *repeated* plural abbreviation followed by a period ('Secs. 1, Secs. 3'): the patterns allow only blanks
-        # between a repeated keyword and its number; not a documented spelling
-        return False
     if kind == 'sec' and AND[r.get('and', 0)] == ': ':
         # a colon *ends* a section reference ('Sec 14: <description>', the documented Twp/Rge-Sec-desc layout); the statement
         # lists commas, 'and' / '&', 'through'-style words and a repeated keyword as list connectives, not the colon
